@@ -100,13 +100,13 @@ def b2s (b : Bool) : String := if b then "true" else "false"
 (`chain:2,1,2` = fields per level, root first): `classFields` on the chain's declarations. -/
 def chainOrder (fts : List (List Char × Ty)) (chain : String) : Option (List (List Char)) :=
   let sizes := ((chain.drop 6).toString.splitOn ",").filterMap String.toNat?
-  let rec cut (fs : List (List Char × Ty)) (sz : List Nat) (li : Nat) : List (String × List (List Char × Ty)) :=
+  let rec cut (fs : Fields) (sz : List Nat) (li : Nat) : List (String × Fields) :=
     match sz with
     | [] => []
     | [n] => [("M", fs.take n)]
     | n :: rest => (s!"B{li}", fs.take n) :: cut (fs.drop n) rest (li + 1)
   let levels := cut fts sizes 0
-  let cs := chainDecls levels none
+  let cs : List (Decl Fields) := chainDecls levels none
   (cs.getLast?).map fun c => (classFields cs c).map (·.1)
 
 def reorderFields {α : Type} (order : List (List Char)) (fs : List (List Char × α)) : List (List Char × α) :=
